@@ -65,7 +65,10 @@ func replayCounterexample(prop string, r *Result, rp map[string]interface{}, ver
 	req, _ := json.Marshal(map[string]interface{}{"func": fn, "obligation": r.Ob.Name, "model": model, "class": class})
 	key := string(req)
 	key = pkg + "|" + fn + "|" + class
-	if out, ok := replayCache[key]; ok && strings.Contains(out, "REPLAY-FAIL") {
+	if strings.Contains(r.Ob.Kind, "shared") {
+		key += "|race"
+	}
+	if out, ok := replayCache[key]; ok && (strings.Contains(out, "REPLAY-FAIL") || strings.Contains(out, "DATA RACE")) {
 		rp["replay_output"] = out
 		rp["replay"] = "confirmed on the real code (same failing input as a sibling obligation)"
 		return true
@@ -93,6 +96,19 @@ func replayCounterexample(prop string, r *Result, rp map[string]interface{}, ver
 			}
 		}
 		rp["replay"] = "confirmed on the real code"
+		return true
+	}
+	if strings.Contains(text, "WARNING: DATA RACE") {
+		// the race detector observed the unsynchronised access on the real code
+		rp["failing_input"] = "go test -race reports a DATA RACE in " + fn + " under concurrent callers"
+		for _, ln := range strings.Split(text, "\n") {
+			if strings.Contains(ln, "/repo/") && strings.Contains(ln, ".go:") {
+				rp["failing_input"] = rp["failing_input"].(string) + ": " + strings.TrimSpace(ln)
+				break
+			}
+		}
+		fmt.Println("  replayed on the real code:", rp["failing_input"])
+		rp["replay"] = "confirmed on the real code by the race detector"
 		return true
 	}
 	rp["replay"] = "the oracle found no failing input near the model (or no oracle exists for this function)"
